@@ -242,7 +242,9 @@ theorem handleMq_disc (g : Gw) (p : MqPkt) (h : g.st = .disconnected) (hp : p 
   路 simpa using h
   路 split
     路 exact h
-    路 simpa using h
+    路 split
+      路 exact h
+      路 simpa using h
   路 simpa using h
   路 split
     路 split
@@ -258,7 +260,7 @@ theorem handleEvent_disc (g : Gw) (ev : Event) (h : g.st = .disconnected) (hev :
   unfold handleEvent
   split
   路 split
-    路 exact c07_client_cannot_activate g _ h
+    路 rw [keepBrokerAlive_st]; exact c07_client_cannot_activate g _ h
     路 simpa using h
   路 rename_i p
     exact handleMq_disc g p h (fun e => hev (by rw [e]))
